@@ -1,6 +1,10 @@
 """Fresh-interpreter worker of the parameter-tree checks: builds every spec of argv[1] (JSON) with the
 real labtech and writes [[status, normal form, cache_key, [dep normal forms]], ...] to argv[2].
-Started with its own PYTHONHASHSEED."""
+Started with its own PYTHONHASHSEED.
+
+`paramworker.py --unpickle in.pkl out.json`: the receiving end of a cross-interpreter pickle round trip (C15).
+in.pkl holds [{spec, key, deps, blobs: [(protocol, bytes)]}]: tasks that were built, HASHED and pickled in the
+sending interpreter.  Each copy is compared here with an equal task freshly built from the same spec."""
 import json
 import sys
 
@@ -20,5 +24,59 @@ def main():
     json.dump(out, open(sys.argv[2], 'w'))
 
 
+def unpickle_main(inp, outp):
+    import pickle
+    import paramgen as pg
+    import paramrun
+    from labtech.tasks import get_direct_dependencies
+    paramrun.quiet()
+    items = pickle.load(open(inp, 'rb'))
+    out = []
+    for it in items:
+        al = []
+        try:
+            fresh = pg.build(it['spec'])
+            fresh_inside = paramrun.tasks_inside(fresh)
+            for proto, blob in it['blobs']:
+                tag = f'(protocol {proto}, receiver with another PYTHONHASHSEED)'
+                try:
+                    copy = pickle.loads(blob)
+                except Exception as e:
+                    al.append(f'unpickling in another interpreter raised {type(e).__name__} {tag}')
+                    continue
+                if not (copy == fresh and fresh == copy):
+                    al.append(f'pickled copy is not equal to an equal task built in the receiving interpreter {tag}')
+                    continue
+                if pg.show(copy) != pg.show(fresh):
+                    al.append(f'pickled copy has another normal form (types changed) {tag}')
+                for x, y in zip(paramrun.tasks_inside(copy), fresh_inside):
+                    where = 'copy' if x is copy else 'nested task of the copy'
+                    if hash(x) != hash(y):
+                        al.append(f'{where} == a task built in the receiving interpreter but has another hash {tag}')
+                    elif x not in {y} or {y: 1}.get(x) != 1 or len({x, y}) != 1:
+                        al.append(f'{where} is not interchangeable with an equal task as set member / dict key {tag}')
+                    for attr in ('_results_map', 'context', 'result_meta'):
+                        if not hasattr(x, attr):
+                            al.append(f'{where} has no attribute {attr} {tag}')
+                        elif getattr(x, attr) is not None:
+                            al.append(f'{where} carries {attr} with it {tag}')
+                    if type(y).__qualname__ == 'WithPost':
+                        if not hasattr(x, 'derived'):
+                            al.append(f'{where} lost what post_init derives {tag}')
+                        elif x.derived != y.derived:
+                            al.append(f'{where} derives something else in post_init {tag}')
+                if getattr(copy, 'cache_key', None) != it['key'] or fresh.cache_key != it['key']:
+                    al.append(f'cache_key differs between the sender, the pickled copy and a task built in the receiver {tag}')
+                if [pg.show(d) for d in get_direct_dependencies(copy)] != it['deps']:
+                    al.append(f'pickled copy finds other dependencies {tag}')
+        except Exception as e:
+            al.append(f'exercising the received copy raised {type(e).__name__}: {e}'[:200])
+        out.append(sorted(set(al)))
+    json.dump(out, open(outp, 'w'))
+
+
 if __name__ == '__main__':
-    main()
+    if sys.argv[1] == '--unpickle':
+        unpickle_main(sys.argv[2], sys.argv[3])
+    else:
+        main()
